@@ -215,6 +215,9 @@ type Config struct {
 	ParamFresh bool
 	// Opaque handles method calls on opaque values (data sets, thread pools) before the built-in treatment.
 	Opaque OpaqueHook
+	// Borrow resolves a method that a local vector ("vector") or local matrix ("matrix") does not model to the
+	// declaration of a concrete container type; the body is interpreted with the local object as receiver.
+	Borrow func(kind, name string) (*ast.FuncDecl, *types.Info)
 	// FiniteSyms: symbolic terms denote finite numbers, so comparisons with the symbol -Inf are decided (x > -Inf).
 	FiniteSyms bool
 }
@@ -719,6 +722,16 @@ func (it *Interp) assignTo(lhs ast.Expr, v Value, define bool) {
 		case *ListVal:
 			b.Elems[it.listIndex(b, x.Index)] = v
 			return
+		case *LocalVec:
+			// v[i] = w stores the element (for pointer-element vectors the slot takes the other location)
+			if l, ok := v.(*Loc); ok {
+				b.Cells[it.evalTerm(x.Index).String()] = l
+				return
+			}
+			if t, ok := v.(*sym.Term); ok {
+				b.Cells[it.evalTerm(x.Index).String()] = it.newLoc("cell", t)
+				return
+			}
 		case *Container:
 			it.curPos = x.Pos()
 			l := it.elemLoc(b, []*sym.Term{it.evalTerm(x.Index)})
@@ -885,11 +898,21 @@ func (it *Interp) eval(e ast.Expr) Value {
 		case token.QUO:
 			if tv, ok := it.info.Types[e]; ok {
 				if b, ok := tv.Type.Underlying().(*types.Basic); ok && b.Info()&types.IsInteger != 0 {
+					if a, ok := constIndex(l); ok {
+						if d, ok := constIndex(r); ok && d != 0 {
+							return sym.Int(int64(a / d))
+						}
+					}
 					return sym.Fn("idiv", l, r)
 				}
 			}
 			return sym.Div(l, r)
 		case token.REM:
+			if a, ok := constIndex(l); ok {
+				if b, ok := constIndex(r); ok && b != 0 {
+					return sym.Int(int64(a % b))
+				}
+			}
 			return sym.Fn("imod", l, r)
 		}
 	case *ast.IndexExpr:
@@ -913,6 +936,15 @@ func (it *Interp) eval(e ast.Expr) Value {
 		}
 		if l, ok := base.(*ListVal); ok {
 			return l.Elems[it.listIndex(l, x.Index)]
+		}
+		if lv, ok := base.(*LocalVec); ok {
+			k := it.evalTerm(x.Index).String()
+			if c, ok := lv.Cells[k]; ok {
+				return c
+			}
+			c := it.newLoc("cell", sym.Zero())
+			lv.Cells[k] = c
+			return c
 		}
 		if a, ok := base.(*ArrVal); ok {
 			idx := it.evalTerm(x.Index)
@@ -1164,6 +1196,9 @@ func (it *Interp) call(call *ast.CallExpr) Value {
 				if l, ok := v.(*ListVal); ok {
 					return sym.Int(int64(len(l.Elems)))
 				}
+				if lv, ok := v.(*LocalVec); ok {
+					return lv.Len
+				}
 				if _, ok := v.(NilVal); ok {
 					return sym.Zero()
 				}
@@ -1175,7 +1210,11 @@ func (it *Interp) call(call *ast.CallExpr) Value {
 								if n, ok := constIndex(it.evalTerm(call.Args[1])); ok && n <= 64 {
 									l := &ListVal{}
 									for i := 0; i < n; i++ {
-										l.Elems = append(l.Elems, NilVal{})
+										if isBasic && b.Info()&types.IsBoolean != 0 {
+											l.Elems = append(l.Elems, &BoolVal{Known: true, V: false})
+										} else {
+											l.Elems = append(l.Elems, NilVal{})
+										}
 									}
 									return l
 								}
@@ -1293,7 +1332,11 @@ func (it *Interp) callFunc(fn *types.Func, call *ast.CallExpr) Value {
 		}
 		return &BoolVal{C: &Cond{Op: "isinf", A: a, Arg: sg}}
 	case "math.IsNaN":
-		return &BoolVal{C: &Cond{Op: "isnan", A: it.evalTerm(call.Args[0])}}
+		if a := it.evalTerm(call.Args[0]); it.cfg.FiniteSyms && !strings.Contains(a.String(), "NaN") && !strings.Contains(a.String(), "Inf") {
+			return &BoolVal{Known: true, V: false}
+		} else {
+			return &BoolVal{C: &Cond{Op: "isnan", A: a}}
+		}
 	}
 	// scalar constructors
 	if fn.Pkg() != nil && fn.Pkg().Path() == "github.com/pbenner/autodiff" {
@@ -1781,6 +1824,9 @@ func (it *Interp) inlineMethod(recv *Loc, name string, call *ast.CallExpr) Value
 // loops: accumulate idiom
 
 func (it *Interp) forStmt(x *ast.ForStmt) {
+	if it.cfg.UnrollConst && it.concreteLoop(x) {
+		return
+	}
 	pos := x.Pos()
 	it.env = append(it.env, map[types.Object]Value{})
 	defer func() {
